@@ -17,7 +17,15 @@ RULE = ("the C01 case set (complete small layer + seeded-random documents x guid
         "exception type is checked), plus the keyword-parameter layer: every keyword, plain and inverted, x 46 parameter texts "
         "(bare / quoted / escaped blanks, empty quotes, a lone `&`, lone and unbalanced quotes, commas without values, padded names) "
         "x documents with blank and empty keys and values, anchors and nulls x 10 ways of reaching them, alone and followed by `*`, "
-        "asked through get_nodes(mustexist=True), exists() and get_nodes(mustexist=False); the same items inside 3 000 guided paths.  Correspondence: the error class equals the Lean model's.  "
+        "asked through get_nodes(mustexist=True), exists() and get_nodes(mustexist=False); the same items inside 3 000 guided paths; "
+        "12 000 (200 000) collector SEQUENCES: hashes of scalars / lists of scalars / further hashes (depth <= 4), 1-3 operands drawn from the "
+        "document (a scalar leaf, a real list of scalars below the root as itself / member by member / one element, a hash's members) joined "
+        "by + (mostly) - &, FOLLOWED by an index into the collected result / min / max / unique / distinct / a search and then parent(n) "
+        "(n absent, 0..5) / name() / has_child (an operand selecting a list of scalars counts as selecting scalars: the collector expands it); "
+        "the complete Unicode-number key layer: 32 key texts of superscripts, subscripts, circled / parenthesised digits, fractions, Roman / "
+        "CJK numerals, non-ASCII decimal digits, signs and mixes x Hashes lacking / owning the key, with integer keys, empty, an "
+        "Array-of-Hashes (pass-through), a list, a set x direct / below a key / `*` / `**` / a slice, alone and followed by a key, "
+        "through required / exists / optional queries.  Correspondence: the error class equals the Lean model's.  "
         "distinct_nontrivial = distinct (document, path) whose required query returns at least one node.")
 
 
